@@ -45,7 +45,7 @@ structure WF (M : RModel) : Prop where
   acyclic : ∃ rank : Node → Nat, rankedByB M rank = true
   inits : ∀ s ∈ stateKeys M.st, (initOf M.st s).isSome = true
 
-variable {M : RModel}
+variable {fn : Interp} {M : RModel}
 
 -- ------------------------------------------------------------------------------------------------ the definition maps
 theorem varRhs_spec (E : EqInv M.st) {v : Nat} {r : Expr} (h : varRhs M v = some r) :
@@ -195,11 +195,11 @@ theorem lookup_states (init : Nat → Option Rat) (l : List (Nat × Eqn)) (d : N
         exact ⟨hk.mpr (.inr h1), h2⟩
 
 /-- the dictionary `_get_value` starts from holds denoted values only -/
-theorem memo0_ok (W : WF M) : MemoOK M (memo0 M) := by
+theorem memo0_ok (W : WF M) : MemoOK fn M (memo0 M) := by
   intro d q h
   unfold memo0 at h
   have hstates : ∀ q, (M.st.odeDef.filterMap (fun p => (initOf M.st p.1).map (fun q => (p.1, q)))).lookup d = some q →
-      Den M (.v d) q := fun q hq => by
+      Den fn M (.v d) q := fun q hq => by
     obtain ⟨h1, h2⟩ := lookup_states (initOf M.st) M.st.odeDef d q hq
     exact Den.state h1 h2
   rcases hf : freeVar M with _ | t
@@ -218,19 +218,19 @@ theorem memo0_ok (W : WF M) : MemoOK M (memo0 M) := by
 
 -- ------------------------------------------------------------------------------------------------ get_value
 /-- what a correct answer of `get_value` is -/
-def GoodAnswer (M : RModel) (v : Nat) : Except VErr Rat → Prop
-  | .ok q => Den M (.v v) q
-  | .error err => err ≠ .fuel ∧ ∀ q, ¬ Den M (.v v) q
+def GoodAnswer (fn : Interp) (M : RModel) (v : Nat) : Except VErr Rat → Prop
+  | .ok q => Den fn M (.v v) q
+  | .error err => err ≠ .fuel ∧ ∀ q, ¬ Den fn M (.v v) q
 
-theorem getValueFuel_good (W : WF M) (F : Nat) (hF : M.st.live.length < F) (v : Nat) :
-    GoodAnswer M v (getValueFuel M F v) := by
+theorem getValueFuel_good (fn : Interp) (W : WF M) (F : Nat) (hF : M.st.live.length < F) (v : Nat) :
+    GoodAnswer fn M v (getValueFuel fn M F v) := by
   obtain ⟨rank, hr⟩ := W.acyclic
   have R := ranked_of_wf W hr
   have hm := fun n => measure_le (M := M) rank ((freeVar M).getD 0) n
-  have h := getValueAux_good R F (fun s t _ => Nat.lt_of_le_of_lt (hm _) hF) F v (memo0 M) (memo0_ok W)
+  have h := getValueAux_good fn R F (fun s t _ => Nat.lt_of_le_of_lt (hm _) hF) F v (memo0 M) (memo0_ok W)
     (Nat.lt_of_le_of_lt (hm _) hF)
   unfold getValueFuel
-  rcases hg : getValueAux M F F v (memo0 M) with err | ⟨q, memo'⟩
+  rcases hg : getValueAux fn M F F v (memo0 M) with err | ⟨q, memo'⟩
   · rw [hg] at h; exact h
   · rw [hg] at h; exact h.1
 
